@@ -120,6 +120,21 @@ Proof.
            command_roundtrip body_roundtrip Hgz cfg b Hwf).
 Qed.
 
+(* Results of earlier Marshal calls are not affected by later ones: the i-th result of a batch is the result for the
+   i-th request alone, and every result decodes to its own request. *)
+Theorem marshal_results_independent (gzip : bytes -> bytes) (gunzip : bytes -> option bytes) :
+  (forall b, gunzip (gzip b) = Some b) ->
+  forall cfg bs, Forall wf_body bs ->
+  (forall i, nth_error (marshal_all wire_enc_command wire_enc_body gzip cfg bs) i
+             = option_map (marshal wire_enc_command wire_enc_body gzip cfg) (nth_error bs i)) /\
+  map (unmarshal wire_dec_command wire_dec_body gunzip) (marshal_all wire_enc_command wire_enc_body gzip cfg bs) = map Some bs.
+Proof.
+  intros Hgz cfg bs Hwf. unfold marshal_all. split.
+  - intros i. apply nth_error_map.
+  - induction Hwf as [|b bs Hb _ IH]; cbn [map]; [reflexivity|].
+    rewrite IH, (roundtrip_wire gzip gunzip Hgz cfg b Hb). reflexivity.
+Qed.
+
 (* ---------------------------------------------------------------- non-vacuity *)
 Definition ex_gzip (b : bytes) : bytes := 31%N :: b.
 Definition ex_gunzip (z : bytes) : option bytes := match z with x :: b => if N.eqb x 31 then Some b else None | [] => None end.
@@ -147,6 +162,11 @@ Proof.
   unfold wf_body, ex_body, wf_qreq, wf_orequest, wf_request, in64. cbn.
   repeat split; try lia; repeat constructor; unfold wf_param, two64; cbn; lia.
 Qed.
+
+Example ex_batch :
+  map (unmarshal wire_dec_command wire_dec_body ex_gunzip) (marshal_all wire_enc_command wire_enc_body ex_gzip ex_cfg [ex_body; BNoop (bs "n1"); ex_body])
+  = [Some ex_body; Some (BNoop (bs "n1")); Some ex_body].
+Proof. vm_compute. reflexivity. Qed.
 
 (* the bytes Go's proto.Marshal produces for Statement{Sql:"a", Parameters:[{Name:"n", Value: I 63}]} wrapped in an
    ExecuteRequest with timings: name (field 6) is written before the oneof member *)
